@@ -258,6 +258,7 @@ func runC27(c *Ctx) {
 		c.undecided(P, "loopback", "fn=handleCall", "", "not found")
 		return
 	}
+	runC27Truthful(c)
 	reach := p.reachableFrom([]*ssa.Function{hc})
 	isEntry := map[*ssa.Function]bool{hc: true}
 	fl := newFlow(p)
@@ -389,6 +390,7 @@ func runC28(c *Ctx) {
 	}
 	// speaking the protocol over TCP includes reading record marks that arrive in pieces (shared with C13)
 	runFullReadAs(c, P)
+	runC28Advertised(c)
 	// constructions: calls to NewServer in package (non-test)
 	for _, cs := range p.callers[ns] {
 		fn := cs.Caller
@@ -474,6 +476,7 @@ func runC30(c *Ctx) {
 	c.rule(P, "listen", "Listen: TLS-enabled edge reaches only tls.Listen with the BuildConfig result", 1)
 	c.rule(P, "ca", "ClientCAs set from CAFile when client certificates are verified", 1)
 	c.rule(P, "rotate", "the TLSConfig returned through GetExportOptions shares the certificate cell the listener reads", 1)
+	runC30RotateUpdate(c)
 	val := p.Fn("(*TLSConfig).Validate")
 	bc := p.Fn("(*TLSConfig).BuildConfig")
 	if val == nil || bc == nil {
